@@ -273,6 +273,18 @@ class StepHooks(Hooks):
             sx.st[k] = Buf(b.name if isinstance(b, Buf) else "slot", {0: Poly.atom("F0")}, b.len if isinstance(b, Buf) else None)
         fixed = {self.ykey, self.xkey} | set(self.slots)
         fixed |= {r for r in roots if isinstance(sx.st.get(r), Buf)}
+        # flags raised where a step is rejected (`reject = true`) are false before the loop and on every accepting path, so
+        # the widening would leave them false at the head: the iteration AFTER a rejected one would never be analysed.
+        # They get an unknown value (both branches of `if reject` are then interpreted and joined).
+        if os.environ.get("IVP_NO_REJECT_HAVOC") != "1" and self.accept_if is not None:
+            rej = self.accept_if.get("else") if self.accept_branch == "then" else self.accept_if.get("then")
+            if rej is not None:
+                for a_ in tast.find(rej, lambda z: z.get("k") == "Assign" and z["l"].get("k") == "Path" and z["l"].get("ty") == "bool"
+                                    and z["r"].get("k") == "Lit" and str(z["r"].get("v")).lower() == "true"):
+                    k_ = a_["l"]["id"]
+                    if k_ not in self.head_assume and sx.st.get(k_) == sx.FALSE:
+                        sx.st[k_] = Poly.atom("flag~%s" % a_["l"].get("name"))
+                        fixed.add(k_)
         for k, v in self.head_assume.items():
             sx.st[k] = v
             fixed.add(k)
